@@ -19,7 +19,7 @@ function who(x) {
   return x === P ? 'P' : x === M ? 'M' : x === O ? 'O' : x === I ? 'I' : x === N ? 'N' : x === FP0 ? 'FP0' : x === F.prototype ? 'FP'
        : x === OP ? 'OP' : x === null ? 'null' : x === undefined ? 'undefined' : typeof x === 'function' ? 'fn' : typeof x === 'object' ? 'obj' : x;
 }
-var KS = ['own', 'mid', 'inh', 'both', 'k', '1', 'tag', 'fv', 'fm', 'shared', 'acc'];
+var KS = ['own', 'inh', 'both', 'k', '1', 'fm', 'acc'];
 function obs() {
   var ts = [P, M, O, I, N, FP0], i, j, t, k, ks, s;
   for (i = 0; i < ts.length; i++) {
@@ -56,13 +56,13 @@ OPS = [
     ("set-proto-null", "Object.setPrototypeOf(T, null);", False),
     ("create", "N = Object.create(T); N.tag = 'N'; N.k = V;", False),
     ("ctor-proto", "F.prototype = T; I = new F(V);", False),
-    ("ctor-proto-method", "F.prototype = {tag: 'FP', fm: function () { return 'new' + this.fv; }}; N = new F(V); log(N.fm(), I.fm());", False),
-    ("fn-prop", "F.sp = V; F[K] = V; log(F.sp, F[K], 'sp' in F, F.hasOwnProperty('sp'), Object.keys(F).sort().join());", True),
-    ("proto-prop", "F.prototype[K] = V; log(I[K], new F(0)[K]);", True),
-    ("method-this", "T.m = function () { return this.tag; }; log(T.m(), O.m ? O.m() : 'none', I.m ? I.m() : 'none');", False),
+    ("ctor-proto-method", "F.prototype = {tag: 'FP', fm: function () { return 'new' + this.fv; }}; N = new F(V); log('cm', N.fm(), I.fm());", False),
+    ("fn-prop", "F.sp = V; F[K] = V; log('fp', F.sp, F[K], 'sp' in F, F.hasOwnProperty('sp'), Object.keys(F).sort().join());", True),
+    ("proto-prop", "F.prototype[K] = V; log('pp', I[K], new F(0)[K]);", True),
+    ("method-this", "T.m = function () { return this.tag; }; log('mt', T.m(), O.m ? O.m() : 'none', I.m ? I.m() : 'none');", False),
     ("literal-proto", "N = {__proto__: T, tag: 'N', k: V};", False),
     ("inc-inherited", "O[K]++; I[K] += V;", True),
-    ("ctor-return", "function G() { this.a = 1; return T; } N = new G(); log(who(N), N instanceof G);", False),
+    ("ctor-return", "var G = function () { this.a = 1; return T; }; N = new G(); log('cr', who(N), N instanceof G);", False),
 ]
 
 
